@@ -163,6 +163,11 @@ where
       let (fs, rest) ← many fuel k rest
       pure (f :: fs, rest)
 
+def SSM.Dispatch.parseFormTop? (form : String) : Option SSM.Dispatch.Form :=
+  match parseForm? 64 (form.splitOn "!") with
+  | some (f, []) => some f
+  | _ => none
+
 open SSM.Dispatch in
 def showOut (o : Out) : String :=
   s!"{if o.labelsAreVariables then 1 else 0};{showDT o.dtype};{o.rows.length}x{o.width};{listOr "," showLabel o.labels};{listOr "|" (listOr "," showRat) o.rows}"
@@ -246,6 +251,9 @@ def step (regs : Regs) (line : String) : Regs × String :=
     | none => (regs, "bad-op")
   | ["drop", r, d, ls] => match parseLabels? ls with
     | some ls => valOp regs r d (fun s => s.drop ls)
+    | none => (regs, "bad-op")
+  | ["appendform", r, d, sort, form] => match SSM.Dispatch.parseFormTop? form with
+    | some f => valOp regs r d (fun s => SSM.Dispatch.appendVariablesForm s f (sort = "1"))
     | none => (regs, "bad-op")
   | ["appendvars", r, d, sort, ls, rows] => match parseLabels? ls, (splitOr "|" rows).mapM (parseRats? ",") with
     | some ls, some rows => valOp regs r d (fun s => s.appendVars ls rows (sort = "1"))
